@@ -26,12 +26,17 @@ def gather_calls(an: Analysis, fi: FunctionInfo) -> list[ast.Call]:
     return [c for c in fi.own_nodes() if isinstance(c, ast.Call) and an.callee(fi, c) == "asyncio.gather"]
 
 
-def fanout(call: ast.Call) -> CompShape | None:
-    """The comprehension spread into gather(*[...])."""
+def fanout(call: ast.Call, deps: Deps | None = None) -> CompShape | None:
+    """The comprehension spread into gather(*[...]) - or the accumulation loop that filled the list spread into it."""
     if len(call.args) == 1 and isinstance(call.args[0], ast.Starred):
         v = call.args[0].value
         sh = CompShape(v)
-        return sh if sh.ok else None
+        if sh.ok:
+            return sh
+        if deps is not None and isinstance(v, ast.Name):
+            from ..domains import comp_of
+
+            return comp_of(deps, v)
     return None
 
 
@@ -90,7 +95,7 @@ def check(an: Analysis) -> None:
     INIT = init_.qualname
     enter_g = None
     for c in gather_calls(an, aenter):
-        sh = fanout(c)
+        sh = fanout(c, de)
         if sh is not None and isinstance(unwrap(sh.elt), ast.Call) and an.callee(aenter, unwrap(sh.elt)) == INIT:
             enter_g = (c, sh)
     if enter_g is None:
@@ -106,7 +111,7 @@ def check(an: Analysis) -> None:
             ob.fail(aenter, c, "the enter gather is not awaited before the scope body starts")
     exit_g = None
     for c in gather_calls(an, aexit):
-        sh = fanout(c)
+        sh = fanout(c, dx)
         if sh is not None and isinstance(unwrap(sh.elt), ast.Call) and isinstance(unwrap(sh.elt).func, ast.Attribute) and unwrap(sh.elt).func.attr == "__aexit__":
             exit_g = (c, sh)
     if exit_g is None:
@@ -179,7 +184,7 @@ def check(an: Analysis) -> None:
             # (b): rollback fan-out over the entered subset
             rb = None
             for c2 in gather_calls(an, aenter):
-                sh2 = fanout(c2)
+                sh2 = fanout(c2, de)
                 if sh2 is not None and isinstance(unwrap(sh2.elt), ast.Call) and isinstance(unwrap(sh2.elt).func, ast.Attribute) and unwrap(sh2.elt).func.attr == "__aexit__":
                     rb = (c2, sh2)
             errs = _error_collections(an, aenter, de, c)
@@ -375,6 +380,22 @@ def check(an: Analysis) -> None:
                 if not (ok and neg):
                     ob.fail(aenter, r, "some successfully yielded state is filtered out")
             src = sh.iter
+        # the per-disposable results may first be separated from the failures: provided = [result for ... if not isinstance(result, BaseException)]
+        for _hop in range(2):
+            pre = comp_of(de, src) if isinstance(unwrap(src), ast.Name) else None
+            if pre is None or pre.is_dict or getattr(pre, "flatten", False):
+                break
+            tn_ = pre.target_names()
+            it_ = unwrap(pre.iter)
+            zipped_ = isinstance(it_, ast.Call) and is_name(it_.func, "zip") and len(it_.args) == 2 and len(tn_) == 2 and is_name(pre.elt, tn_[1])
+            plain_ = len(tn_) == 1 and is_name(pre.elt, tn_[0])
+            if not (zipped_ or plain_):
+                break
+            if pre.filtered:
+                ok_, neg_ = is_exc_filter(pre)
+                if not (ok_ and neg_):
+                    ob.fail(aenter, r, "some successfully yielded state is filtered out")
+            src = it_.args[1] if zipped_ else pre.iter
         if "call:asyncio.gather" not in de.origins(src) or (enter_g and not _flows_from(de, src, enter_g[0])):
             ob.fail(aenter, r, "the returned state does not come from the enter fan-out")
 
@@ -442,7 +463,11 @@ def _error_collections(an: Analysis, fi: FunctionInfo, d: Deps, gather: ast.Call
                 continue
             ok, neg = is_exc_filter(sh)
             tn = sh.target_names()
-            if ok and not neg and len(tn) == 1 and is_name(sh.elt, tn[0]) and "call:asyncio.gather" in d.origins(sh.iter):
+            it_ = unwrap(sh.iter)
+            plain = len(tn) == 1 and is_name(sh.elt, tn[0]) and "call:asyncio.gather" in d.origins(sh.iter)
+            # the same over zip(self._disposables, results): the element is the *result* of the pair
+            zipped_ = isinstance(it_, ast.Call) and is_name(it_.func, "zip") and len(it_.args) == 2 and len(tn) == 2 and is_name(sh.elt, tn[1]) and "call:asyncio.gather" in d.origins(it_.args[1])
+            if ok and not neg and (plain or zipped_):
                 names.append(t.id)
                 seen.add(t.id)
     return names
